@@ -141,7 +141,7 @@ func (c Int) POW(a, k Int) Int {
 /* -------------------------------------------------------------------------- */
 func (c Int) SQRT(a Int) Int {
   x := a.GetFloat64()
-  c.SetFloat64(math.Sqrt(x))
+  c.SetFloat64(math.Pow(x, 0.5))
   return c
 }
 /* -------------------------------------------------------------------------- */
